@@ -104,6 +104,14 @@ fn main() {
                     libc::raise(sig);
                 }
             }
+            "closeout" => {
+                // close standard output (end of data for the reader) but keep running
+                let _ = out.flush();
+                unsafe { libc::close(1) };
+            }
+            "sleep" => {
+                std::thread::sleep(std::time::Duration::from_millis(parts[1].parse().unwrap_or(0)));
+            }
             "ignore_sigpipe" => {
                 ignore_pipe = true;
                 unsafe { libc::signal(libc::SIGPIPE, libc::SIG_IGN) };
